@@ -482,3 +482,91 @@ Proof.
   unfold model_modify_cell. destruct (norm_coord (l_dims L) c); [|reflexivity].
   destruct fm, hasval; reflexivity.
 Qed.
+
+(* ================= round 3: the new operations ================= *)
+
+(* ---------- get_neighborhood_mask as an operation of the model (it runs the translated body) ---------- *)
+Lemma nbhd_mask_gen_eq dims nb m :
+  (gen_nbhd_mask_d dims nb = GOk m \/ gen_nbhd_mask_l dims nb = GOk m) ->
+  m = fmask (fun k => existsb (coord_eqb k) nb) (all_coords dims).
+Proof.
+  intros H.
+  assert (g_set_many (g_zeros dims) nb = fmask (fun k => existsb (coord_eqb k) nb) (all_coords dims)) as Hs.
+  { unfold g_set_many, g_zeros, fmask. rewrite g_all_coords_eq, map_map. reflexivity. }
+  assert (nb = [] -> g_zeros dims = fmask (fun k => existsb (coord_eqb k) nb) (all_coords dims)) as Hz.
+  { intros ->. unfold g_zeros, fmask. rewrite g_all_coords_eq. reflexivity. }
+  unfold gen_nbhd_mask_d, gen_nbhd_mask_l in H. cbv zeta in H.
+  repeat match type of H with context [if ?c then _ else _] => destruct c eqn:? end;
+    destruct H as [H|H]; inversion H; subst;
+    first [exact Hs | apply Hz; destruct nb; [reflexivity|simpl in *; exfalso; lia]].
+Qed.
+
+Lemma gen_nbhd_mask_total dims nb :
+  (exists m, gen_nbhd_mask_d dims nb = GOk m) /\ (exists m, gen_nbhd_mask_l dims nb = GOk m).
+Proof.
+  unfold gen_nbhd_mask_d, gen_nbhd_mask_l. cbv zeta.
+  split; repeat match goal with |- context [if ?c then _ else _] => destruct c end; eauto.
+Qed.
+
+(* whatever neighbourhood the grid reports (all of it inside the grid): the mask covers the grid in
+   row-major order and is True exactly on the neighbourhood - in particular all False when it is empty *)
+Lemma nbhd_mask_step st nb :
+  forallb (valid_coord (s_dims st)) nb = true ->
+  step st (NbhdMask nb) =
+  (st, ROk (map (fun c => b2z (existsb (coord_eqb c) nb)) (all_coords (s_dims st)))).
+Proof.
+  intros Hv. simpl. rewrite Hv.
+  destruct (gen_nbhd_mask_total (s_dims st) nb) as [[m1 H1] [m2 H2]].
+  destruct (s_discrete st).
+  - rewrite H1. rewrite (nbhd_mask_gen_eq _ _ _ (or_introl H1)). unfold fmask. rewrite map_map. reflexivity.
+  - rewrite H2. rewrite (nbhd_mask_gen_eq _ _ _ (or_intror H2)). unfold fmask. rewrite map_map. reflexivity.
+Qed.
+
+(* ---------- aggregate ---------- *)
+Lemma avals_reads (d : arr) : NoDup (akeys d) -> avals d = map (aget0 d) (akeys d).
+Proof.
+  intros Hn. unfold avals, akeys. rewrite map_map. apply map_ext_in. intros [k x] Hin. simpl.
+  symmetry. apply nodup_aget0; assumption.
+Qed.
+
+(* the values aggregate() folds over are exactly the values the cells show, cell by cell *)
+Lemma aggregate_values st n id L :
+  inv st -> s_discrete st = true -> assoc n (s_grid st) = Some id -> get_obj st id = Some L ->
+  avals (l_data L) = map (fun c => opt_z (cell_read st c n)) (all_coords (s_dims st)).
+Proof.
+  intros I Hd Hn HL.
+  destruct (inv_attached _ I _ _ Hn) as [L' [HL' Hdims]]. rewrite HL in HL'. inversion HL'; subst L'.
+  pose proof (inv_keys _ I _ _ HL) as Hk.
+  rewrite avals_reads by (rewrite Hk; apply nodup_all_coords). rewrite Hk, Hdims.
+  apply map_ext_in. intros c Hc. unfold cell_read. rewrite (inv_descr _ I Hd), Hn, HL. unfold layer_get.
+  destruct (aget_in_keys (l_data L) c) as [x Hx]; [rewrite Hk, Hdims; exact Hc|].
+  apply valid_in_all_coords in Hc. rewrite Hdims, (valid_norm _ _ Hc). unfold aget0, opt_z. rewrite Hx. reflexivity.
+Qed.
+
+Lemma aggregate_exact st n id L :
+  inv st -> s_discrete st = true -> assoc n (s_grid st) = Some id -> get_obj st id = Some L ->
+  let cells := map (fun c => opt_z (cell_read st c n)) (all_coords (s_dims st)) in
+  step st (Aggregate (ByName n) SUM) = (st, ROk [zsum cells]) /\
+  step st (Aggregate (ByName n) MEAN) = (st, ROk [zsum cells; Z.of_nat (length (all_coords (s_dims st)))]) /\
+  (forall t, step st (Aggregate (ByName n) MAX) = (st, ROk [t]) -> In t cells /\ forall v, In v cells -> v <= t) /\
+  (forall t, step st (Aggregate (ByName n) MIN) = (st, ROk [t]) -> In t cells /\ forall v, In v cells -> t <= v).
+Proof.
+  intros I Hd Hn HL cells. pose proof (aggregate_values st n id L I Hd Hn HL) as Hv. fold cells in Hv.
+  simpl. rewrite Hn, HL. unfold aggregate. rewrite Hv. simpl.
+  split; [reflexivity|]. split; [unfold cells; rewrite map_length; reflexivity|]. split.
+  - intros t. destruct (zmaxl cells) as [t'|] eqn:E; intros H; inversion H; subst. apply zmaxl_spec. exact E.
+  - intros t. destruct (zminl cells) as [t'|] eqn:E; intros H; inversion H; subst. apply zminl_spec. exact E.
+Qed.
+
+(* ---------- the dtype boundary ---------- *)
+(* for the three layer dtypes and the three operand dtypes: the pairs the generators hand to modify_cells
+   are EXACTLY the pairs for which NumPy's result keeps the layer's dtype (everything else changes the dtype,
+   raises TypeError, or - python max / min with an operand of another dtype - depends on the data) *)
+Lemma dtype_boundary ldt fm f vdt :
+  0 <= ldt <= 2 -> 0 <= vdt <= 2 ->
+  (admissible ldt fm f vdt = true <-> dtype_result ldt fm f vdt = ldt).
+Proof.
+  intros H1 H2. unfold admissible, dtype_result, DT_TYPEERROR, DT_VALUE_DEPENDENT.
+  destruct f, fm; try (split; [reflexivity|intros; reflexivity]);
+    repeat match goal with |- context [if ?c then _ else _] => destruct c eqn:? end; split; intros; try lia; try reflexivity.
+Qed.
